@@ -552,6 +552,16 @@ impl Scenario for EarlyStop {
         if rng.chance(1, 2) {
             cfg.hbfs = (2, 10);
         }
+        // many 100-packet batches + a reader->analysis queue capped to 1..2 batches: the reader is
+        // blocked on a full queue when processing is cut short
+        let many_batches = !stave && rng.chance(1, 3);
+        if many_batches {
+            cfg.n_links = rng.range(1, 3) as usize;
+            cfg.hbfs = (60, 160);
+            cfg.data_pages = (1, 2);
+            cfg.triggers = (1, 2);
+            cfg.data_words = (0, 3);
+        }
         let mut st = gen_conforming(&cfg, &mut rng);
         let kind_i = case % 4;
         let mut label;
@@ -672,6 +682,14 @@ impl Scenario for EarlyStop {
         }
         if rng.chance(1, 3) {
             benign_io(&mut base, &mut rng);
+        }
+        if many_batches {
+            base.cap_limit = Some(*rng.pick(&[1usize, 1, 2]));
+            if base.policy == crate::exec::PolicySpec::Canonical {
+                base.policy = crate::exec::PolicySpec::Random { p_permille: 200 };
+                base.sched_seed = rng.next_u64();
+            }
+            label.push_str(" | many batches, reader queue capped");
         }
         let mut allowed = vec![0, 1];
         if let Some(n) = exit_code {
